@@ -1,5 +1,6 @@
 import MqttVerif.Driver.Common
 import MqttVerif.Codec.Wf
+import MqttVerif.Codec.Abs
 import Std.Data.HashMap
 /-!
 Trace driver for the packet codecs (`T codec …`).
@@ -93,6 +94,14 @@ def compareParse (st : CodecSt) (ln : Nat) (ver pw fh : Nat) (body : List Nat) (
         | some b => if same ∧ modelReparse ver pw enc ≠ b then
             r.mdiff s!"codec.parse.{kind}.reparse" s!"{loc}: reparse verdict model={modelReparse ver pw enc} impl={b}" else r
         | none => r
+      -- C03 on parsed packets: the re-encoding of an accepted packet is what the specification
+      -- prescribes for its field values
+      let r := if c04 ∧ same then
+          let spec := (Packet.abs p).encode pw
+          if spec ≠ cont' then
+            r.viol s!"C03 bytes@{kind}" s!"{loc}: the specification prescribes {short spec} for the parsed field values, the implementation re-encodes {short cont'}"
+          else r.tag "spec.reencode.checked"
+        else r
       -- C04 "buildable": structural rules of the builders, on the (agreeing) packet
       let r := if c04 ∧ same then
           match firstFailing (p.checks pw) with
@@ -157,6 +166,15 @@ def codecB (st : CodecSt) (ln : Nat) (line : String) (r : Report) : CodecSt × R
                     let r := if cont2 ≠ cont then r.viol s!"C02 reparse@{kind}" s!"{loc}: parse(encode p) re-encodes to {short cont2}, not {short cont}" else r
                     if eqs.trimAscii.toString = "eq=0" ∧ cont2 = cont then
                       r.viol s!"C02 equal@{kind}" s!"{loc}: parse(encode p) ≠ p although the bytes agree: {short cont}" else r
+                -- C03: the independent reference encoder, applied to the abstraction of the packet the
+                -- model parsed from these bytes, must reproduce the implementation's bytes
+                let r := match Packet.parse ver pw fh' body with
+                  | some (.ok p _) =>
+                    let spec := (Packet.abs p).encode pw
+                    if spec ≠ cont then
+                      r.viol s!"C03 bytes@{kind}" s!"{loc}: the specification prescribes {short spec} for these field values, the implementation wrote {short cont}"
+                    else r.tag "spec.bytes.checked"
+                  | _ => r
                 compareParse st ln ver pw fh' body ir false r
             | _, _, _ => bad
           | _ => bad
